@@ -331,7 +331,23 @@ class Extraction:
 # locks: `with <something lock>:` statements in the traced functions
 
 
-def lock_regions(codes: Sequence[Any]) -> Dict[Any, List[Tuple[int, int, int]]]:
+def _is_lock(expr: str, code: Any, cls: Any) -> bool:
+    """Does the context expression of a `with` denote a lock?  Evaluated in the globals of the
+    module the function lives in (with `cls` bound); failing that, by its spelling."""
+    env: Dict[str, Any] = {}
+    for mod in list(sys.modules.values()):
+        if getattr(mod, "__file__", None) == code.co_filename:
+            env = dict(vars(mod))
+            break
+    env["cls"] = cls
+    try:
+        obj = eval(expr, env)
+        return hasattr(obj, "acquire") and hasattr(obj, "release")
+    except Exception:
+        return "lock" in expr.lower()
+
+
+def lock_regions(codes: Sequence[Any], cls: Any = None) -> Dict[Any, List[Tuple[int, int, int]]]:
     """code -> [(with line, first body line, last body line)] for with-statements on a lock."""
     out: Dict[Any, List[Tuple[int, int, int]]] = {}
     for code in codes:
@@ -342,14 +358,14 @@ def lock_regions(codes: Sequence[Any]) -> Dict[Any, List[Tuple[int, int, int]]]:
         tree = ast.parse(textwrap.dedent(fn_src))
         off = code.co_firstlineno - 1
         for n in ast.walk(tree):
-            if isinstance(n, ast.With) and any("lock" in ast.unparse(i.context_expr).lower() for i in n.items):
+            if isinstance(n, ast.With) and any(_is_lock(ast.unparse(i.context_expr), code, cls) for i in n.items):
                 last = max(getattr(x, "end_lineno", n.lineno) or n.lineno for x in ast.walk(n))
                 out.setdefault(code, []).append((n.lineno + off, n.body[0].lineno + off, last + off))
     return out
 
 
-def annotate(traces: List[Trace], codes: Sequence[Any], atomic_setdefault: bool) -> None:
-    regions = lock_regions(codes)
+def annotate(traces: List[Trace], codes: Sequence[Any], atomic_setdefault: bool, cls: Any = None) -> None:
+    regions = lock_regions(codes, cls)
     for tr in traces:
         new_steps: List[Step] = []
         for st in tr.steps:
@@ -458,7 +474,7 @@ def search(traces: List[Trace], threads: int, timeout_ms: int = 120000) -> Dict[
                             raise HarnessError(f"no semantics for {o.kind}")
                     # locks
                     if st.acquire:
-                        conds.append(lock[t] == 0)
+                        conds.append(z3.Or(lock[t] == 0, lock[t] == k + 1))
                     if st.inside:
                         conds.append(lock[t] == k + 1)
                     nxt_inside = i + 1 < n and tr.steps[i + 1].inside
